@@ -656,7 +656,8 @@ fn gen_chunker(rng: &mut Rng) -> ChunkerCfg {
         return ChunkerCfg::Rabin { avg: 0, min: 0, max: *rng.pick(&[0usize, 1, 4096]) };
     }
     // rabin: avg = 2^k
-    let k = match rng.weighted(&[3, 22, 22, 40, 10, 3]) {
+    // avg < 4096 implies min < 4096, which ConfigOptions::apply refuses: kept rare (refusal is C18's subject)
+    let k = match rng.weighted(&[1, 2, 3, 64, 22, 8]) {
         0 => rng.range(0, 5),
         1 => rng.range(6, 8),
         2 => rng.range(9, 11),
@@ -665,9 +666,11 @@ fn gen_chunker(rng: &mut Rng) -> ChunkerCfg {
         _ => rng.range(19, 20),
     };
     let avg = 1usize << k;
-    let min = if avg >= BUF && rng.chance(3, 5) {
+    let min = if avg >= BUF && rng.chance(9, 10) {
         // the range the library is meant for
-        *rng.pick(&[BUF, BUF + 1, avg / 2, avg / 2 + 1, avg - 1, avg, BUF.max(avg / 4)])
+        let lo = BUF as u64;
+        let (r1, r2) = (rng.range(lo, avg as u64) as usize, rng.range(lo, avg as u64) as usize);
+        *rng.pick(&[BUF, BUF + 1, BUF + WIN - 1, BUF + WIN, BUF + WIN + 1, BUF.max(avg / 2), BUF.max(avg / 2 + 1), BUF.max(avg - 1), avg, BUF.max(avg / 4), r1, r2])
     } else {
         match rng.usize(10) {
             0 => 0,
@@ -844,12 +847,12 @@ impl Prop for C06 {
     }
     fn runs(&self, tier: Tier) -> u64 {
         match tier {
-            Tier::Quick => 6000,
-            Tier::Thorough => 15000,
+            Tier::Quick => 2500,
+            Tier::Thorough => 30000,
         }
     }
     fn rule(&self) -> &'static str {
-        "one run = one chunker parameter set accepted by ConfigOptions::apply (polynomial: seeded irreducible degree-53 or restic's fixed one; rabin avg 2^k, k in 0..=20, min in 0..=avg incl. 0/1/63/64/65/<4096, max in avg..=8*avg incl. <4096, library default; \
+        "one run = one chunker parameter set accepted by ConfigOptions::apply (polynomial: seeded irreducible degree-53 or restic's fixed one; rabin avg 2^k, k in 0..=20 (mostly 12..=20: smaller averages force min < 4096, which is refused), min in 4096..=avg incl. 4096+63..65, avg/2, avg-1, avg and rarely 0/1/63/64/65/<4096 (refused), max in avg..=8*avg, library default; \
          fixed size 0..=2 MiB incl. 1, primes, 4095/4096/4097; rarely rabin avg 0, whose parameter-check panic is only counted) x 3-14 seeded streams (lengths 0, 1, 63..65, min-1..min+65, max-1..max+1, 4095..4097, 2*max, up to 4*max+5 under a byte budget; kinds random, zeros, constant, periodic, text, zero-with-islands, \
          boundary-dense = fingerprint zero forced every 1..1000 bytes by solving for the window's last bytes, targeted = fingerprint zeros placed at min-1/min/min+1/min+63..65/max-1 from the previous ideal cut) x 10 reader behaviours through verif::chunk_iter \
          (whole reads = Cursor baseline, 1-byte reads, capped reads, seeded short reads, Interrupted bursts every n-th read incl. at the first read and at refills/EOF probes, sticky hard error at a seeded offset; size hint 0/exact/half/1/+1/double/usize::MAX). \
